@@ -7,7 +7,8 @@
      - `s.shrinking = true|false`, `s.shrinklog = nil`;
      - the guard `if s.aof == nil || s.shrinking {s.mu.Unlock(); return}`: the function returns;
      - anything that does not mention the two fields and cannot leave the function (no if / for /
-       return / block): skipped;
+       return / block): skipped (this includes other fields of the rewrite's state, e.g. the abort
+       flag s.shrinkrst of proposed_fixes/C09-follow-reset-aborts-shrink.diff);
      - anything else: not understood (None) — the obligations of Proofs/ShrinkEntryProofs.v then fail. *)
 From Coq Require Import String List Bool.
 From T38 Require Import Model.Shrink.
@@ -28,7 +29,7 @@ Definition stmt_eff (s : string) : eff :=
   else if String.eqb s "s.shrinking = false" then ESetFlag false
   else if String.eqb s "s.shrinklog = nil" then EResetLog
   else if String.eqb s "if s.aof == nil || s.shrinking {s.mu.Unlock(); return}" then EGuard
-  else if contains "s.shrink" s || String.prefix "if " s || String.prefix "for " s || String.prefix "return" s
+  else if contains "s.shrinking" s || contains "s.shrinklog" s || String.prefix "if " s || String.prefix "for " s || String.prefix "return" s
           || String.prefix "{" s || String.prefix "?" s || String.prefix "go " s || String.prefix "switch " s
           || String.prefix "select " s || String.prefix "goto " s then EUnknown
   else ESkip.
@@ -53,3 +54,44 @@ Definition expected_state_writes : list string :=
   ["Server.aofshrink: s.shrinking = false"; "Server.aofshrink: s.shrinking = true";
    "Server.aofshrink: s.shrinklog = nil"; "Server.aofshrink: s.shrinklog = nil";
    "Server.writeAOF: s.shrinklog = append(s.shrinklog, nargs)"].
+
+(* Any other write of a field s.shrink* must be one of:
+     - the abort flag: `s.shrinkrst = true` anywhere (it can only make the running rewrite give up: the
+       old file stays the log), `s.shrinkrst = false` in aofshrink() itself;
+     - a reset of the log outside aofshrink(): only by a function that raises the abort flag as well,
+       and only if the final section gives up on that flag before it appends the shrinklog to the new
+       file (so the emptied log is never what the server keeps).  On the repaired tree this is the
+       follower's followReset. *)
+Fixpoint index_str (x : string) (l : list string) : option nat :=
+  match l with
+  | [] => None
+  | y :: r => if String.eqb x y then Some 0 else option_map S (index_str x r)
+  end.
+
+Definition before_str (a b : string) (l : list string) : bool :=
+  match index_str a l, index_str b l with
+  | Some i, Some j => Nat.ltb i j
+  | _, _ => false
+  end.
+
+Definition in_list (x : string) (l : list string) : bool := existsb (String.eqb x) l.
+
+Definition split_site (w : string) : option (string * string) :=
+  match String.index 0 ": " w with
+  | Some i => Some (String.substring 0 i w, String.substring (i + 2) (String.length w - (i + 2)) w)
+  | None => None
+  end.
+
+Definition rewrite_gives_up_on_reset (final : list string) : bool :=
+  before_str "if s.shrinkrst return" "range s.shrinklog: assign aofbuf" final.
+
+Definition write_ok (all final : list string) (w : string) : bool :=
+  in_list w expected_state_writes ||
+  match split_site w with
+  | Some (fn, stmt) =>
+      String.eqb stmt "s.shrinkrst = true" ||
+      (String.eqb fn "Server.aofshrink" && String.eqb stmt "s.shrinkrst = false") ||
+      (String.eqb stmt "s.shrinklog = nil" && negb (String.eqb fn "Server.aofshrink") &&
+       in_list (fn ++ ": s.shrinkrst = true") all && rewrite_gives_up_on_reset final)
+  | None => false
+  end.
